@@ -125,6 +125,29 @@ impl<T: Cell> MatRegs<T> {
                 o.push_str(" ]");
                 Ok(o)
             }
+            "indexed_check" => {
+                // indexed_check n : a fresh matrix of size n; every cell index reported by indexed_iter against the integer inverse of the
+                // row-major triangular index (k-th cell <-> (i, j), j < i, k = i(i-1)/2 + j); implementation only
+                let n: usize = a[1].parse().unwrap();
+                let m: DistanceMatrix<T> = DistanceMatrix::new_with_size(n);
+                let (mut k, mut bad, mut first) = (0usize, 0usize, String::from("-"));
+                let (mut ei, mut ej) = (1usize, 0usize);
+                for ((i, j), _) in m.indexed_iter() {
+                    if (i, j) != (ei, ej) {
+                        if bad == 0 {
+                            first = format!("{}:{}.{}!={}.{}", k, i, j, ei, ej);
+                        }
+                        bad += 1;
+                    }
+                    k += 1;
+                    ej += 1;
+                    if ej == ei {
+                        ei += 1;
+                        ej = 0;
+                    }
+                }
+                Ok(format!("{} {} {}", k, bad, first))
+            }
             "to_map" => {
                 let m = self.mats[cur].to_map();
                 let mut items: Vec<String> = m
